@@ -14,4 +14,9 @@ MODULE = ("Em", "typhon/physics/em.py", [
     # real refractive indices (np.isreal(...) is True in the real-valued model)
     {"name": "snell"},
     {"name": "fresnel"},
+    # complex refractive index n2 = n2re + i n2im of the reflecting medium (n1 real): second translation of the
+    # SAME two functions.  np.isreal(n2) is decided False (Liou's branch of snell; it only uses np.real(n2) and
+    # np.imag(n2), so snell_c is real-valued); fresnel_c returns two complex numbers (Mathlib ℂ / TF.Cplx pairs).
+    {"name": "snell", "variant": "c", "complex_params": ["n2"]},
+    {"name": "fresnel", "variant": "c", "complex_params": ["n2"]},
 ])
